@@ -58,7 +58,7 @@ func c03Inputs(k Kind) []any {
 	return common
 }
 
-var c03Layouts = []string{"2006-01-02", "02/01/2006", "2006-01-02 15:04"}
+var c03Layouts = []string{"2006-01-02", "02/01/2006", "2006-01-02 15:04", time.RFC3339}
 
 // c03Documented: the coercion the documentation defines for (kind, option, input); ok=false: no documented coercion.
 func c03Documented(k c03Kind, opt int, in any) (any, bool) {
@@ -154,6 +154,29 @@ func c03Scenario(ki int) mc.Scenario {
 		}
 		if restore != nil {
 			defer restore()
+		}
+		// a coercer given to the schema itself (WithCoercer, Time.Format, Time.FormatFunc) wins over a process-wide
+		// override of the same kind installed at the same time
+		globalToo := false
+		if (opt == 1 || opt == 3 || opt >= 4) && k.setGlobal != nil {
+			globalToo = x.Choose(2, "globalOverrideInstalledToo") == 1
+			if globalToo {
+				var wrong any
+				switch k.base {
+				case KStr:
+					wrong = "GLOBAL"
+				case KInt:
+					wrong = 9999
+				case KFloat:
+					wrong = 99.25
+				case KBool:
+					wrong = false
+				case KTime:
+					wrong = time.Date(1999, 9, 9, 9, 9, 9, 0, time.UTC)
+				}
+				r2 := k.setGlobal(func(data any) (any, error) { return wrong, nil })
+				defer r2()
+			}
 		}
 		want, documented := c03Documented(k, opt, in)
 		absent := parseAbsentSpec(in)
@@ -277,7 +300,7 @@ func c03Scenario(ki int) mc.Scenario {
 		obs := RunParse(schema, data, dest)
 		zh.Reset()
 		out := &mc.Outcome{Traces: 1, Nontrivial: !absent}
-		desc := fmt.Sprintf("%s option=%d placement=%d input=%T(%v)", k.name, opt, place, in, in)
+		desc := fmt.Sprintf("%s option=%d placement=%d input=%T(%v) process-wide override installed as well=%v", k.name, opt, place, in, in, globalToo)
 		success := obs.Panic == "" && len(obs.Issues) == 0
 		out.Sig = fmt.Sprintf("%s|%d|%d|%T|succ=%v", k.name, opt, place, in, success)
 		out.Sample = map[string]any{"case": desc, "success": success, "documented": documented, "want": fmt.Sprint(want)}
@@ -491,7 +514,7 @@ func c03ReuseScenario(x *mc.X) *mc.Outcome {
 func init() {
 	Register(&Prop{
 		ID:    "C03",
-		Rule:  "full product: leaf kind {String, Int, Int32, Int64, Float64, Float32, Bool, Time} × 49 input representations (Go native of every width, decimal/exponent/bool/time strings, unix seconds, JSON-typed float64, []byte, lists, maps) × coercer option {default, WithCoercer, global conf.Coercers override, WithCoercer applied through Ptr, Time.Format ×3 layouts, Time.FormatFunc} × placement {top, struct field, slice element, behind pointer, struct in slice, pre-allocated pointer field}; plus slices of length 0..3 in 5 representations; plus destination independence: every core case with one focus unit parsed into two differently pre-filled destinations (different sentinels, slices with spare capacity); plus the whole destination against the reference model: every core case (hand-picked skeletons and the shape grammar of two-field structs) with ≤2 focus units, all visit orders, on success the destination must equal the model's node for node (leaves, allocated and nil pointers, slice lengths, untouched sentinels); non-trivial = present input; distinct = distinct (kind, option, placement, input type, success)",
+		Rule:  "full product: leaf kind {String, Int, Int32, Int64, Float64, Float32, Bool, Time} × 49 input representations (Go native of every width, decimal/exponent/bool/time strings, unix seconds, JSON-typed float64, []byte, lists, maps) × coercer option {default, WithCoercer, global conf.Coercers override, WithCoercer applied through Ptr, Time.Format ×4 layouts incl. RFC3339, Time.FormatFunc; the schema-level options also with a process-wide override of the same kind installed at the same time} × placement {top, struct field, slice element, behind pointer, struct in slice, pre-allocated pointer field}; plus slices of length 0..3 in 5 representations; plus destination independence: every core case with one focus unit parsed into two differently pre-filled destinations (different sentinels, slices with spare capacity); plus the whole destination against the reference model: every core case (hand-picked skeletons and the shape grammar of two-field structs) with ≤2 focus units, all visit orders, on success the destination must equal the model's node for node (leaves, allocated and nil pointers, slice lengths, untouched sentinels); non-trivial = present input; distinct = distinct (kind, option, placement, input type, success)",
 		Floor: 100,
 		Bound: func(tier string) string { return "full product (both tiers)" },
 		Assumptions: []string{
